@@ -47,21 +47,24 @@ def key(rng, used):
     return None, None
 
 
-def node(rng, depth, anchors, bad):
-    """(node, flow text); anchors: list of (name, node) defined earlier in the document"""
+def node(rng, depth, anchors, bad, enclosing=()):
+    """(node, flow text); anchors: list of (name, node) defined earlier in the document; enclosing: names of the anchors
+    on nodes that contain this one (an alias to one of them makes the node tree cyclic: always a circular-reference error)"""
+    if enclosing and rng.chance(1, 6):
+        return ["aliasup"], "*" + rng.pick(list(enclosing))
     k = rng.below(10)
     if anchors and k < 2:
         name, target = rng.pick(anchors)
         return ["alias", target], "*" + name
     if depth > 0 and k < 6:
-        return mapping(rng, depth, anchors, bad)
+        return mapping(rng, depth, anchors, bad, enclosing)
     if depth > 0 and k < 8:
-        items = [node(rng, depth - 1, anchors, bad) for _ in range(rng.below(4))]
+        items = [node(rng, depth - 1, anchors, bad, enclosing) for _ in range(rng.below(4))]
         return ["seq", [n for n, _ in items]], "[" + ", ".join(t for _, t in items) + "]"
     return scalar(rng)
 
 
-def mapping(rng, depth, anchors, bad):
+def mapping(rng, depth, anchors, bad, enclosing=()):
     used = set()
     entries = []
     n = rng.below(4)
@@ -69,10 +72,12 @@ def mapping(rng, depth, anchors, bad):
         kn, kt = key(rng, used)
         if kn is None:
             break
-        vn, vt = node(rng, depth - 1, anchors, bad)
+        vn, vt = node(rng, depth - 1, anchors, bad, enclosing)
         entries.append(([kn, vn], "%s: %s" % (kt, vt)))
     map_anchors = [(nm, t) for nm, t in anchors if t[0] == "map"]
-    if map_anchors and rng.chance(1, 2):
+    if enclosing and rng.chance(1, 8):
+        entries.insert(rng.below(len(entries) + 1), ([["s", "!!merge", "<<"], ["aliasup"]], "<<: *%s" % rng.pick(list(enclosing))))
+    elif map_anchors and rng.chance(1, 2):
         form = 9 if (bad and rng.chance(1, 2)) else rng.below(9)
         if form < 4:
             nm, t = rng.pick(map_anchors)
@@ -98,18 +103,19 @@ def mapping(rng, depth, anchors, bad):
     return ["map", [e for e, _ in entries]], "{" + ", ".join(t for _, t in entries) + "}"
 
 
-def document(rng, bad=False):
+def document(rng, bad=False, selfref=False):
     """(node tree of the document, YAML text): top-level block mapping; anchors first, then uses"""
     anchors = []
     lines = []
     entries = []
     for i in range(1 + rng.below(3)):
         name = "a%d" % i
+        enc = (name,) if selfref else ()
         if rng.chance(4, 5):
-            n, t = mapping(rng, 1, anchors, bad)
+            n, t = mapping(rng, 1 + (1 if selfref else 0), anchors, bad, enc)
         else:
-            n, t = node(rng, 1, anchors, bad)
-        if n[0] == "alias":
+            n, t = node(rng, 1, anchors, bad, enc)
+        if n[0] in ("alias", "aliasup"):
             # an anchor on an alias is not YAML
             n, t = scalar(rng)
         lines.append("%s: &%s %s" % (name, name, t))
